@@ -1,12 +1,13 @@
 #!/bin/bash
 # Silence probe: apply each behaviour-preserving patch of /verif/preserving (written by fresh sub-agents who saw nothing of /verif)
 # in a scratch worktree of /repo, run the repository's test-suite and the checks of the touched area (+ C19), expect exit 0 everywhere.
+# batches 1-6: first sample (round 6), 7-12: second sample (round 8), same six areas
 # usage: tools/eval_preserving.sh <scratch-worktree> [batch ...]      (the worktree is created if missing and left clean)
 set -u
 HERE=$(cd "$(dirname "$0")/.." && pwd)
 wt=$1; shift
-batches=${*:-1 2 3 4 5 6}
-declare -A CHECKS=( [1]="C02 C06 C09 C10 C11 C01 C04 C19" [2]="C05 C03 C01 C04 C07 C19" [3]="C01 C07 C08 C13 C19" [4]="C12 C04 C17 C19" [5]="C14 C15 C16 C19" [6]="C17 C18 C20 C08" )
+batches=${*:-1 2 3 4 5 6 7 8 9 10 11 12}
+declare -A CHECKS=( [1]="C02 C06 C09 C10 C11 C01 C04 C19" [2]="C05 C03 C01 C04 C07 C19" [3]="C01 C07 C08 C13 C19" [4]="C12 C04 C17 C19" [5]="C14 C15 C16 C19" [6]="C17 C18 C20 C08" [7]="C02 C06 C09 C10 C11 C01 C04 C19" [8]="C05 C03 C01 C04 C07 C19" [9]="C01 C07 C08 C13 C19" [10]="C12 C04 C17 C19" [11]="C14 C15 C16 C19" [12]="C17 C18 C20 C08" )
 [ -d "$wt" ] || git -C /repo worktree add -q --detach "$wt" HEAD
 ev=$(mktemp -d)
 bad=0
